@@ -46,7 +46,10 @@ Definition parked_ok (sl : list slot) (r : parked) : bool :=
   end.
 
 Inductive case :=
-| KTrunc (tp : tparams) (st : list part) (report : list line) (after : list oslot) (readers : list parked).
+| KTrunc (tp : tparams) (st : list part) (report : list line) (after : list oslot) (readers : list parked)
+(* one partition, a writer appending the chunks w (flushed) when deleteJournal asks for the exclusive lock:
+   fired = the writer ran (deleteJournal was reached), after = what became of the partition *)
+| KRace (tp : tparams) (p : part) (w : list chunk) (fired : bool) (after : oslot).
 
 Definition check (c : case) : bool :=
   match c with
@@ -55,6 +58,9 @@ Definition check (c : case) : bool :=
       list_eqb line_eqb (sort_lines (map line_of infos)) report &&
       list_eqb oslot_eqb (map oslot_of sl) after &&
       forallb (parked_ok sl) readers
+  | KRace tp p w fired after =>
+      let '(s, f) := visit_one_w code_incl tp p (if fired then w else []) in
+      Bool.eqb f fired && oslot_eqb (oslot_of s) after
   end.
 
 Definition mismatches (l : list case) : list nat := mismatches_of check l.
